@@ -3,6 +3,7 @@ import Pymc.Proofs.FailoverDemo
 import Pymc.Proofs.HashCallExamples
 import Pymc.Proofs.HashCallSetExamples
 import Pymc.Proofs.HashPooledCallExamples
+import Pymc.Proofs.HashPooledCallManyExamples
 import Pymc.Proofs.HashBroadcastExamples
 /-!
 # C13 — failover: bounded probing, eviction, rerouting, recovery
@@ -1120,5 +1121,311 @@ example :
   refine ⟨by decide +kernel, by decide +kernel⟩
 
 end hashbroadcast
+
+/-! ## `HashClient ∘ PooledClient ∘ Client`: `get_many` / `gets_many`, `set_many`, `delete_many` with `use_pooling=True`
+
+Model: `Pymc/Model/HashPooledCallMany.lean` (= `Pymc/Model/HashInnerMany.lean`, the multi-key code of `HashCallMany.lean`
+with the registered object as a parameter, instantiated with the `PooledClient`).  A history is a list of general calls
+(`HashPooledCall.MPCall`: an operation `HashCall.MOp` as in section `hashmany`, the time of the call and the release time of
+the pools).  Forgetting the pools (`HashInner.St.proj`), a general pooled run is a run of the abstract model over the
+abstract history `HashInner.absOfRunG` — per call the events `HashInner.absOfCallG`: a `_run_cmd` event for a single-key
+call, one `.getMany` / `.setMany` event over the routing keys, the `_run_cmd` events of the `delete`s a `delete_many` got
+round to; the environment of a multi-key event gives every server the outcome of the pooled call made on it
+(`C13_hashpooled_many_outcome`) — under the hypothesis `HashInner.projOKG`, which is `HashCall.projOK` word for word (no
+illegal key and, under `ignore_exc` only, no `BaseException` in a `get_many` / `set_many`).  So the pooled `HashClient` goes
+through the same bookkeeping trajectory, contacts the same servers in the same order and returns the same results (in
+the vocabulary of the abstract model) as the plain one on the same abstract history
+(`C13_hashpooled_many_refines_plain`), and everything proved about `run` holds for it. -/
+section hashpooledmany
+
+variable {RK : Type}
+
+/-- C13 (`use_pooling=True`, the environment of a multi-key call): the outcome the abstract model is given for the server
+of a batch is `HashCall.outcomeOf` of what the `PooledClient` method returned or raised (`othererror` for the pool's
+`RuntimeError`), `ok` when the server was not contacted (its batch was skipped inside the retry window). -/
+theorem C13_hashpooled_many_outcome (pcfg : Pooled.Cfg) (bo : HashPooledCall.BPObs pcfg) :
+    bo.outcome =
+      match (bo.inner : Option PooledCall.PObs) with
+      | some po => HashPooledCall.outcomeOfP po.res
+      | none => .ok :=
+  HashPooledCall.bobs_outcome bo
+
+/-- C13 (`use_pooling=True`, one multi-key call).  After any general pooled history, for the next call at time `now`
+(pools released at `fin`), if it satisfies `HashInner.projOKG`:
+
+* a `get_many` / `gets_many` is the abstract `stepOp` for the event `.getMany` over the routing keys, in the environment
+  read off the observation: same bookkeeping state afterwards, same result (`HashInner.absResManyG`), same contact log;
+* a `set_many` likewise is the abstract `stepOp` for the event `.setMany`;
+* any call (this covers `delete_many` and the single-key calls) is the abstract `run` over `HashInner.absOfCallG`. -/
+theorem C13_hashpooled_many_step_projection (ccfg : Wire.Cfg) (pcfg : Pooled.Cfg) (c : Cfg) (route : List Srv → RK → Option Srv)
+    (hlaw : RouteLaw route) (servers : List Srv) (t0 : Time) (calls : List (HashPooledCall.MPCall RK)) (now fin : Time) :
+    let st := (HashPooledCall.runMP ccfg pcfg c route (HashPooledCall.init pcfg servers t0) 0 calls).1
+    (∀ (gets : Bool) (keys : List (RK × _root_.Key.K)) (scripts : Srv → Exchange.Script),
+      let mc : HashPooledCall.MPCall RK := { op := .getMany gets keys scripts, now := now, fin := fin }
+      let out := HashPooledCall.callMP ccfg pcfg c route st calls.length mc
+      HashInner.projOKG c mc out.2 = true →
+        stepOp c route st.proj
+            { now := now, env := HashInner.envOfBatchesG out.2.batches, op := .getMany (keys.map (·.1)) } =
+          (out.1.proj, HashInner.absResManyG c (HashCall.assignedOf c route now st.fo (keys.map (·.1))) out.2,
+            HashInner.contactsOfBatchesG now out.2.batches)) ∧
+    (∀ (items : List (RK × _root_.Key.K × Wire.Val)) (expire : Wire.IntArg) (noreply : Option Bool) (flags : Option Int)
+        (scripts : Srv → List (_root_.Key.K × Wire.Val) → Exchange.Script),
+      let mc : HashPooledCall.MPCall RK := { op := .setMany items expire noreply flags scripts, now := now, fin := fin }
+      let out := HashPooledCall.callMP ccfg pcfg c route st calls.length mc
+      HashInner.projOKG c mc out.2 = true →
+        stepOp c route st.proj
+            { now := now, env := HashInner.envOfBatchesG out.2.batches, op := .setMany (items.map (·.1)) } =
+          (out.1.proj, HashInner.absResManyG c (HashCall.assignedOf c route now st.fo (items.map (·.1))) out.2,
+            HashInner.contactsOfBatchesG now out.2.batches)) ∧
+    (∀ mc : HashPooledCall.MPCall RK,
+      let out := HashPooledCall.callMP ccfg pcfg c route st calls.length mc
+      HashInner.projOKG c mc out.2 = true →
+        run c route st.proj (HashInner.absOfCallG ccfg c route st calls.length mc).1 =
+          (out.1.proj, (HashInner.absOfCallG ccfg c route st calls.length mc).2)) := by
+  intro st
+  have hcov : HashInner.Cover st :=
+    HashInner.cover_runGM (I := HashPooledCall.pooled pcfg) ccfg c route hlaw (HashPooledCall.init pcfg servers t0) 0 calls
+      (HashInner.cover_init _ servers t0)
+  refine ⟨?_, ?_, ?_⟩
+  · intro gets keys scripts mc out hok
+    obtain ⟨hill, hb⟩ := HashInner.projOK_manyG (r := out.2.res) hok
+    exact HashInner.getManyG_proj ccfg c route hlaw st calls.length now fin gets keys scripts hcov hill hb
+  · intro items expire noreply flags scripts mc out hok
+    obtain ⟨hill, hb⟩ := HashInner.projOK_manyG (r := out.2.res) hok
+    exact HashInner.setManyG_proj ccfg c route hlaw st calls.length now fin items expire noreply flags scripts hcov hill hb
+  · intro mc out hok
+    exact HashInner.callGM_proj ccfg c route hlaw st calls.length mc hcov hok
+
+/-- C13 (`use_pooling=True`, general runs).  A general pooled run from a fresh `HashClient(use_pooling=True)` in which
+every call satisfies `HashInner.projOKG` is a run of the abstract model from `init` over the abstract history
+`HashInner.absOfRunG`: the bookkeeping state at the end is the projection of the composed state, and the per-event
+results and contact logs are those read off the composed observations. -/
+theorem C13_hashpooled_many_projection (ccfg : Wire.Cfg) (pcfg : Pooled.Cfg) (c : Cfg) (route : List Srv → RK → Option Srv)
+    (hlaw : RouteLaw route) (servers : List Srv) (t0 : Time) (calls : List (HashPooledCall.MPCall RK)) :
+    let r := HashPooledCall.runMP ccfg pcfg c route (HashPooledCall.init pcfg servers t0) 0 calls
+    HashInner.allProjOKG c calls r.2 = true →
+      run c route (init servers t0) (HashInner.absOfRunG ccfg c route (HashPooledCall.init pcfg servers t0) 0 calls).1 =
+        (r.1.proj, (HashInner.absOfRunG ccfg c route (HashPooledCall.init pcfg servers t0) 0 calls).2) := by
+  intro r hok
+  have h := HashInner.runGM_proj (I := HashPooledCall.pooled pcfg) ccfg c route hlaw (HashPooledCall.init pcfg servers t0) 0 calls
+    (HashInner.cover_init _ servers t0) hok
+  rw [HashInner.init_proj] at h
+  exact h
+
+/-- non-vacuity: the seven-call history `HashPooledCallExamples.setCalls` (`HashCallExamples.setCalls` with pooling) satisfies
+the hypothesis; it gives rise to the same eight abstract events as without pooling (`(time, (kind, keys), env 0, env 1)`;
+kind 2 = `set_many`, 0 = `_run_cmd`), the environments being the outcomes of the pooled calls, and `Failover.run` on them
+ends in the same bookkeeping state with the results and contact logs read off the pooled run.  The `get_many` history
+`HashPooledCallExamples.manyCalls` under `ignore_exc=True` and `HashPooledCallExamples.idleCalls` satisfy the hypothesis too. -/
+example :
+    HashInner.allProjOKG HashCallExamples.cfgStrict HashPooledCallExamples.setCalls
+      (HashPooledCall.runMP {} HashPooledCallExamples.pool1 HashCallExamples.cfgStrict prefRoute
+        (HashPooledCall.init HashPooledCallExamples.pool1 [0, 1] 0) 0 HashPooledCallExamples.setCalls).2 = true ∧
+    (HashInner.absOfRunG {} HashCallExamples.cfgStrict prefRoute (HashPooledCall.init HashPooledCallExamples.pool1 [0, 1] 0) 0
+        HashPooledCallExamples.setCalls).1.map (fun e => (e.now, HashCallExamples.opTag e.op, e.env 0, e.env 1)) =
+      [(0, (2, 2), .ok, .ok), (1, (2, 2), .oserror, .ok), (2, (2, 2), .ok, .ok), (3, (0, 1), .oserror, .oserror),
+       (5, (2, 2), .oserror, .ok), (6, (2, 2), .ok, .ok), (12, (0, 1), .ok, .ok), (12, (0, 1), .ok, .ok)] ∧
+    (HashInner.absOfRunG {} HashCallExamples.cfgStrict prefRoute (HashPooledCall.init HashPooledCallExamples.pool1 [0, 1] 0) 0
+        HashPooledCallExamples.setCalls).2 =
+      [(.multi [true, true], [(0, 0, .ok), (1, 0, .ok)]),
+       (.raisedServerError 0 .oserror, [(0, 1, .oserror)]),
+       (.multi [false, true], [(1, 2, .ok)]),
+       (.raisedServerError 0 .oserror, [(0, 3, .oserror)]),
+       (.raisedServerError 0 .oserror, [(0, 5, .oserror)]),
+       (.multi [true, true], [(1, 6, .ok)]),
+       (.value, [(0, 12, .ok)]),
+       (.value, [(1, 12, .ok)])] ∧
+    run HashCallExamples.cfgStrict prefRoute (init [0, 1] 0)
+        (HashInner.absOfRunG {} HashCallExamples.cfgStrict prefRoute (HashPooledCall.init HashPooledCallExamples.pool1 [0, 1] 0) 0
+          HashPooledCallExamples.setCalls).1 =
+      ({ nodes := [1, 0], failed := [], dead := [], lastDeadCheck := 12 },
+       (HashInner.absOfRunG {} HashCallExamples.cfgStrict prefRoute (HashPooledCall.init HashPooledCallExamples.pool1 [0, 1] 0) 0
+          HashPooledCallExamples.setCalls).2) ∧
+    HashInner.allProjOKG HashCallExamples.cfgIgnore HashPooledCallExamples.manyCalls
+      (HashPooledCall.runMP {} HashPooledCallExamples.pool1 HashCallExamples.cfgIgnore prefRoute
+        (HashPooledCall.init HashPooledCallExamples.pool1 [0, 1] 0) 0 HashPooledCallExamples.manyCalls).2 = true ∧
+    HashInner.allProjOKG HashCallExamples.cfgStrict HashPooledCallExamples.idleCalls
+      (HashPooledCall.runMP {} HashPooledCallExamples.poolIdle HashCallExamples.cfgStrict prefRoute
+        (HashPooledCall.init HashPooledCallExamples.poolIdle [0, 1] 0) 0 HashPooledCallExamples.idleCalls).2 = true :=
+  HashPooledCallExamples.demo_set_projection_pooled
+
+/-- C13 (`use_pooling=True` refines `use_pooling=False` on the failover bookkeeping).  Take a general pooled run and a general
+run of the plain model (`HashCall.runM`, section `hashmany`; possibly other inner-client configuration, other scripts —
+the inner clients and pools behave differently —) that both satisfy the hypothesis of the projection and give rise to the
+same abstract history: the same events at the same times on the same routing keys, every contacted server doing
+(`ok` / `OSError` / other error) the same in both.  Then forgetting the pools resp. the inner clients, both end in the same
+bookkeeping state (rotation, `_failed_clients`, `_dead_clients`, `_last_dead_check_time`), and per event they return the
+same result and contact the same servers in the same order with the same outcomes. -/
+theorem C13_hashpooled_many_refines_plain (ccfg ccfg' : Wire.Cfg) (pcfg : Pooled.Cfg) (c : Cfg)
+    (route : List Srv → RK → Option Srv) (hlaw : RouteLaw route) (servers : List Srv) (t0 : Time)
+    (calls : List (HashPooledCall.MPCall RK)) (calls' : List (HashCall.MCall RK))
+    (hok : HashInner.allProjOKG c calls
+      (HashPooledCall.runMP ccfg pcfg c route (HashPooledCall.init pcfg servers t0) 0 calls).2 = true)
+    (hok' : HashCall.allProjOK c calls' (HashCall.runM ccfg' c route (HashCall.init servers t0) 0 calls').2 = true)
+    (hev : (HashInner.absOfRunG ccfg c route (HashPooledCall.init pcfg servers t0) 0 calls).1 =
+      (HashCall.absOfRun ccfg' c route (HashCall.init servers t0) 0 calls').1) :
+    (HashPooledCall.runMP ccfg pcfg c route (HashPooledCall.init pcfg servers t0) 0 calls).1.proj =
+      (HashCall.runM ccfg' c route (HashCall.init servers t0) 0 calls').1.proj ∧
+    (HashInner.absOfRunG ccfg c route (HashPooledCall.init pcfg servers t0) 0 calls).2 =
+      (HashCall.absOfRun ccfg' c route (HashCall.init servers t0) 0 calls').2 := by
+  have h1 := C13_hashpooled_many_projection ccfg pcfg c route hlaw servers t0 calls
+  have h2 := C13_hash_many_projection ccfg' c route hlaw servers t0 calls'
+  simp only at h1 h2
+  have h1' := h1 hok
+  have h2' := h2 hok'
+  rw [hev, h2'] at h1'
+  exact ⟨(Prod.mk.inj h1').1.symm, (Prod.mk.inj h1').2.symm⟩
+
+/-- non-vacuity of the conclusion: on `setCalls` the pooled run (`max_pool_size=1`) and the plain run end in the same
+bookkeeping state and produce the same abstract outputs (their abstract events agree at every server of the history, see
+the example above and the one after `C13_hash_many_projection`) -/
+example :
+    (HashPooledCall.runMP {} HashPooledCallExamples.pool1 HashCallExamples.cfgStrict prefRoute
+        (HashPooledCall.init HashPooledCallExamples.pool1 [0, 1] 0) 0 HashPooledCallExamples.setCalls).1.proj =
+      (HashCall.runM {} HashCallExamples.cfgStrict prefRoute (HashCall.init [0, 1] 0) 0 HashCallExamples.setCalls).1.proj ∧
+    (HashInner.absOfRunG {} HashCallExamples.cfgStrict prefRoute (HashPooledCall.init HashPooledCallExamples.pool1 [0, 1] 0) 0
+        HashPooledCallExamples.setCalls).2 =
+      (HashCall.absOfRun {} HashCallExamples.cfgStrict prefRoute (HashCall.init [0, 1] 0) 0 HashCallExamples.setCalls).2 := by
+  refine ⟨?_, ?_⟩
+  · have h1 := HashPooledCallExamples.demo_set_pooled.2.2
+    have h2 := HashCallExamples.demo_set.2.2
+    simp only [HashPooledCallExamples.manyStateP, HashCallExamples.manyState, Prod.mk.injEq] at h1 h2
+    exact h1.1.trans h2.1.symm
+  · rw [HashPooledCallExamples.demo_set_projection_pooled.2.2.1, HashCallExamples.demo_set_projection.2.2.1]
+
+/-- C13 (`use_pooling=True`, general histories, both window bounds).  In every general pooled history (single-key calls,
+`get_many` / `gets_many`, `set_many`, `delete_many`) whose clock never goes back, in which every call satisfies
+`HashInner.projOKG`, and which contains no `set_many` if `ignore_exc` is on (the known defect, see
+`C13_hashpooled_many_setmany_ignoreexc_counterexample`), for every server `s`: among the contacts to `s` during which the
+pooled call raised an `OSError` (`HashInner.contactLogGM`: all contacts of the run with the outcomes of the real pooled
+calls), any window `[t, t + retry_timeout]` contains at most two; and among those made since the last contact to `s` that
+returned normally, any window `[t, t + dead_timeout]` contains at most `retry_attempts + 2`. -/
+theorem C13_hashpooled_many_probing_windows (ccfg : Wire.Cfg) (pcfg : Pooled.Cfg) (c : Cfg) (route : List Srv → RK → Option Srv)
+    (hlaw : RouteLaw route) (hlt : c.rt < c.dt) (servers : List Srv) (t0 : Time) (calls : List (HashPooledCall.MPCall RK))
+    (hch : HashInner.ChronoGM t0 calls)
+    (hok : HashInner.allProjOKG c calls
+      (HashPooledCall.runMP ccfg pcfg c route (HashPooledCall.init pcfg servers t0) 0 calls).2 = true)
+    (hns : c.ignoreExc = true → ∀ mc ∈ calls, mc.op.isSetMany = false) (s : Srv) :
+    let L := HashInner.contactLogGM calls (HashPooledCall.runMP ccfg pcfg c route (HashPooledCall.init pcfg servers t0) 0 calls).2
+    (∀ t : Time, countIn t c.rt (oserrTimes s L) ≤ 2) ∧
+    (∀ t : Time, countIn t c.dt (oserrTimes s (sinceLastOk s L)) ≤ c.ra + 2) := by
+  intro L
+  have hproj := C13_hashpooled_many_projection ccfg pcfg c route hlaw servers t0 calls
+  simp only at hproj
+  have hL : L = contactsOf (run c route (init servers t0)
+      (HashInner.absOfRunG ccfg c route (HashPooledCall.init pcfg servers t0) 0 calls).1).2 := by
+    rw [hproj hok]
+    exact (HashInner.contactsOf_absOfRunG (I := HashPooledCall.pooled pcfg) ccfg c route (HashPooledCall.init pcfg servers t0) 0 calls).symm
+  have hchr := HashInner.chrono_absOfRunG (I := HashPooledCall.pooled pcfg) ccfg c route (HashPooledCall.init pcfg servers t0) 0 t0 calls hch
+  have hns' : NoSetManyUnderIgnoreExc c (HashInner.absOfRunG ccfg c route (HashPooledCall.init pcfg servers t0) 0 calls).1 :=
+    fun hi e he => HashInner.absOfRunG_noSetMany (I := HashPooledCall.pooled pcfg) ccfg c route (HashPooledCall.init pcfg servers t0) 0
+      calls (hns hi) e he
+  rw [hL]
+  exact ⟨(C13_le_two_per_rt_window c route hlaw hlt servers t0 _ hchr hns' s).2,
+    (C13_le_ra_plus_two_per_dt_window c route hlaw hlt servers t0 _ hchr hns' s).2⟩
+
+/-- non-vacuity: `HashPooledCallExamples.setCalls` (four `set_many`, two `delete_many`, `ignore_exc=False`, pooling) is
+chronological and satisfies `projOKG`; the `OSError` contacts to server 0 happen at 1 (`set_many`), 3 (`delete_many`) and 5
+(`set_many`, the final probe after the eviction). -/
+example : HashInner.ChronoGM 0 HashPooledCallExamples.setCalls ∧ RouteLaw prefRoute ∧
+    HashCallExamples.cfgStrict.rt < HashCallExamples.cfgStrict.dt ∧
+    HashInner.allProjOKG HashCallExamples.cfgStrict HashPooledCallExamples.setCalls
+      (HashPooledCall.runMP {} HashPooledCallExamples.pool1 HashCallExamples.cfgStrict prefRoute
+        (HashPooledCall.init HashPooledCallExamples.pool1 [0, 1] 0) 0 HashPooledCallExamples.setCalls).2 = true ∧
+    (HashCallExamples.cfgStrict.ignoreExc = true → ∀ mc ∈ HashPooledCallExamples.setCalls, mc.op.isSetMany = false) ∧
+    oserrTimes 0 (HashInner.contactLogGM HashPooledCallExamples.setCalls
+      (HashPooledCall.runMP {} HashPooledCallExamples.pool1 HashCallExamples.cfgStrict prefRoute
+        (HashPooledCall.init HashPooledCallExamples.pool1 [0, 1] 0) 0 HashPooledCallExamples.setCalls).2) = [1, 3, 5] :=
+  ⟨by simp [HashInner.ChronoGM, HashPooledCallExamples.setCalls, HashCallExamples.setCalls, HashPooledCallExamples.toGM,
+      HashInner.ofMCall],
+    prefRoute_law, by decide, HashPooledCallExamples.demo_set_projection_pooled.1, (fun h => by cases h), by decide +kernel⟩
+
+/-- C13 (known defect `C13-setmany-ignoreexc`, with `use_pooling=True`).  A `HashClient(use_pooling=True, ignore_exc=True,
+retry_attempts=1, retry_timeout=1, dead_timeout=5, max_pool_size=1)` over servers 0 and 1; server 0 is down: every pooled
+`set_many` on it fails with a socket error (`ECONNREFUSED`).
+
+1. Five `set_many({k: v})` at the same tick: server 0 is contacted by every one of them (five `OSError` contacts within one
+   `retry_timeout` — the bound is 2 — and within one `dead_timeout` since the last success — the bound is 3); every time the
+   pool of server 0 destroys the inner client whose call failed (inner clients 0 … 4) — the pool layer does its part —,
+   but `_set_many` swallows the exception: the server is never marked failed nor evicted, and every call returns `[]`.  The
+   history satisfies `projOKG`.
+2. A failing `get` at t=0 marks server 0; a failing `set_many` at t=2 (retry window open) *clears* the failure record. -/
+theorem C13_hashpooled_many_setmany_ignoreexc_counterexample :
+    let calls := HashPooledCallExamples.setDownCalls
+    let r := HashPooledCall.runMP {} HashPooledCallExamples.pool1 HashCallExamples.cfgIgnore prefRoute
+      (HashPooledCall.init HashPooledCallExamples.pool1 [0, 1] 0) 0 calls
+    let L := HashInner.contactLogGM calls r.2
+    HashInner.ChronoGM 0 calls ∧
+    HashInner.allProjOKG HashCallExamples.cfgIgnore calls r.2 = true ∧
+    L = [(0, 0, .oserror), (0, 0, .oserror), (0, 0, .oserror), (0, 0, .oserror), (0, 0, .oserror)] ∧
+    countIn 0 HashCallExamples.cfgIgnore.rt (oserrTimes 0 L) = 5 ∧
+    countIn 0 HashCallExamples.cfgIgnore.dt (oserrTimes 0 (sinceLastOk 0 L)) = 5 ∧
+    r.1.fo = { nodes := [0, 1], failed := [], dead := [], lastDeadCheck := 0 } ∧
+    r.2.map (fun ob => (ob.res : HashInner.HRes HashPooledCall.PExc)) =
+      [.value (.keys []), .value (.keys []), .value (.keys []), .value (.keys []), .value (.keys [])] ∧
+    r.2.map (fun ob => (HashPooledCall.pobsOf ob).map (·.client)) = [[some 0], [some 1], [some 2], [some 3], [some 4]] ∧
+    (HashPooledCall.runMP {} HashPooledCallExamples.pool1 HashCallExamples.cfgIgnore prefRoute
+        (HashPooledCall.init HashPooledCallExamples.pool1 [0, 1] 0) 0 (HashPooledCallExamples.setClearsCalls.take 1)).1.fo =
+      { nodes := [0, 1], failed := [(0, 0, 0)], dead := [], lastDeadCheck := 0 } ∧
+    (HashPooledCall.runMP {} HashPooledCallExamples.pool1 HashCallExamples.cfgIgnore prefRoute
+        (HashPooledCall.init HashPooledCallExamples.pool1 [0, 1] 0) 0 HashPooledCallExamples.setClearsCalls).1.fo =
+      { nodes := [0, 1], failed := [], dead := [], lastDeadCheck := 0 } ∧
+    HashInner.contactLogGM HashPooledCallExamples.setClearsCalls
+        (HashPooledCall.runMP {} HashPooledCallExamples.pool1 HashCallExamples.cfgIgnore prefRoute
+          (HashPooledCall.init HashPooledCallExamples.pool1 [0, 1] 0) 0 HashPooledCallExamples.setClearsCalls).2 =
+      [(0, 0, .oserror), (0, 2, .oserror)] := by
+  refine ⟨by simp [HashInner.ChronoGM, HashPooledCallExamples.setDownCalls, HashCallExamples.setDownCalls,
+      HashCallExamples.setDownAt, HashPooledCallExamples.toGM, HashInner.ofMCall],
+    by decide +kernel, by decide +kernel, by decide +kernel, by decide +kernel, by decide +kernel, by decide +kernel,
+    by decide +kernel, by decide +kernel, by decide +kernel, by decide +kernel⟩
+
+/-- C13 (`use_pooling=True`, general histories, no internal bookkeeping error).  In every general pooled history every call of
+which satisfies `HashInner.projOKG`, no call — single-key, `get_many` / `gets_many`, `set_many`, `delete_many` — ends in
+`internalError`: every dict `pop` / `del` / lookup of the failover code — including `self.clients[server]` in the second
+loop of a multi-key call, after the `_retry_dead`s of the first loop have replaced `PooledClient`s, and the `pop` of the
+failure record in the retry branch of `_safely_run_set_many` — and every `remove_node` finds its key. -/
+theorem C13_hashpooled_many_no_internal_error (ccfg : Wire.Cfg) (pcfg : Pooled.Cfg) (c : Cfg) (route : List Srv → RK → Option Srv)
+    (hlaw : RouteLaw route) (servers : List Srv) (t0 : Time) (calls : List (HashPooledCall.MPCall RK))
+    (hok : HashInner.allProjOKG c calls
+      (HashPooledCall.runMP ccfg pcfg c route (HashPooledCall.init pcfg servers t0) 0 calls).2 = true) :
+    ∀ ob ∈ (HashPooledCall.runMP ccfg pcfg c route (HashPooledCall.init pcfg servers t0) 0 calls).2,
+      HashInner.isInternalError ob.res = false := by
+  intro ob hob
+  cases hres : HashInner.isInternalError ob.res
+  · rfl
+  · exfalso
+    have hres' : ob.res = .internalError := by
+      cases h : ob.res <;> simp [h, HashInner.isInternalError] at hres ⊢
+    obtain ⟨i, hi⟩ := List.getElem?_of_mem hob
+    have hlen := HashInner.runGM_length (I := HashPooledCall.pooled pcfg) ccfg c route (HashPooledCall.init pcfg servers t0) 0 calls
+    have hlt : i < calls.length := by
+      rw [← hlen]
+      exact (List.getElem?_eq_some_iff.mp hi).1
+    have hmc : calls[i]? = some calls[i] := List.getElem?_eq_getElem hlt
+    obtain ⟨-, h2⟩ := HashInner.runGM_split (I := HashPooledCall.pooled pcfg) ccfg c route (HashPooledCall.init pcfg servers t0) 0 calls
+      i calls[i] hmc
+    rw [Nat.zero_add] at h2
+    have hob' : ob = (HashInner.callGM ccfg c route
+        (HashInner.runGM ccfg c route (HashPooledCall.init pcfg servers t0) 0 (calls.take i)).1 i calls[i]).2 := by
+      have h : (HashInner.runGM ccfg c route (HashPooledCall.init pcfg servers t0) 0 calls).2[i]? = some ob := hi
+      rw [h2] at h
+      exact (Option.some.inj h).symm
+    rw [hob'] at hres'
+    obtain ⟨cs, hmem⟩ := HashInner.callGM_internal_mem (I := HashPooledCall.pooled pcfg) ccfg c route _ i calls[i] hres'
+    have hrun := HashInner.absOfCallG_mem_run (I := HashPooledCall.pooled pcfg) ccfg c route hlaw (HashPooledCall.init pcfg servers t0)
+      calls (HashInner.cover_init _ servers t0) hok i calls[i] hmc _ hmem
+    rw [HashInner.init_proj] at hrun
+    exact C13_no_internal_error c route hlaw servers t0 _ _ hrun rfl
+
+/-- non-vacuity: the hypothesis holds of `HashPooledCallExamples.setCalls` and `HashPooledCallExamples.idleCalls` (see the example
+after `C13_hashpooled_many_projection`), whose calls end in values and in server errors — results per call -/
+example :
+    (HashPooledCall.runMP {} HashPooledCallExamples.poolIdle HashCallExamples.cfgStrict prefRoute
+        (HashPooledCall.init HashPooledCallExamples.poolIdle [0, 1] 0) 0 HashPooledCallExamples.idleCalls).2.map
+        (fun ob => (ob.res : HashInner.HRes HashPooledCall.PExc)) =
+      [.value (.dict [(.bytes [107], [120])]), .raised 0 (.inner (.sock 32)), .value (.keys []), .raised 0 (.inner (.sock 32))] := by
+  decide +kernel
+
+end hashpooledmany
 
 end Failover
